@@ -356,11 +356,13 @@ class FormulaManager(object):
         """
         # TODO could this be improved by storing only the relative Fraction (or int maybe) in the real_constants dict?
         # Note: bool values are equal to 0 / 1 but are not valid constants
-        # (the same holds for the components of a pair)
+        # (the same holds for the components of a pair, and for any
+        # other value that is equal to a valid one: Decimal, complex)
         if type(value) != bool and \
-           not (isinstance(value, tuple) and
-                not all(is_pysmt_integer(v) or is_python_integer(v)
-                        for v in value)) and \
+           (is_pysmt_fraction(value) or is_python_rational(value) or
+            (isinstance(value, tuple) and
+             all(is_pysmt_integer(v) or is_python_integer(v)
+                 for v in value))) and \
            value in self.real_constants:
             return self.real_constants[value]
 
